@@ -34,6 +34,16 @@ def load_variants(prop=None):
 
 
 def apply_variant(root, v):
+    if v.get('patch_file'):
+        import subprocess
+        r = subprocess.run(['git', 'apply', os.path.join(VERIF,
+                                                         v['patch_file'])],
+                           cwd=root, stdout=subprocess.PIPE,
+                           stderr=subprocess.STDOUT)
+        if r.returncode != 0:
+            raise RuntimeError('variant %s: patch does not apply: %s' % (
+                v['id'], r.stdout.decode()[:200]))
+        return
     edits = v.get('edits') or [{'file': v['file'], 'old': v['old'],
                                 'new': v['new']}]
     for e in edits:
